@@ -2,6 +2,7 @@ package main
 
 import (
 	"fmt"
+	"math/rand"
 	"time"
 
 	"verifharness/internal/envoyclient"
@@ -15,11 +16,14 @@ type scenario struct {
 	Ack        bool   // init-cut: ACK the n-th response before cutting
 	Orderly    bool   // boundary: EOF instead of cancel
 	StaleNonce bool   // SotW reconnect presents the retained nonces
+	EDSFirst   bool   // SotW reconnect: the EDS request for retained names reaches the server before the CDS request (envoy#13009)
+	Coalesce   bool   // with EDSFirst: the ACK of the first EDS response is coalesced with the re-subscription that follows the CDS response
 	Proxy      int
 	Delta      bool
 	Start      int // batch index before which the scenario starts (client connects / disconnects)
 	Away       int // number of batches applied while the client is away
 
+	self      bool // the scenario cuts the proxy's long-lived client itself (pod-backed proxies)
 	cl        *envoyclient.Client
 	awayTill  int
 	away      bool
@@ -33,6 +37,12 @@ func (s *scenario) String() string {
 	if s.Delta {
 		p = "delta"
 	}
+	if s.EDSFirst {
+		p += ",eds-first"
+	}
+	if s.Coalesce {
+		p += ",coalesced-ack"
+	}
 	return fmt.Sprintf("%s(n=%d,ack=%v,orderly=%v,staleNonce=%v,%s,%s,start=%d,away=%d)", s.Kind, s.N, s.Ack, s.Orderly, s.StaleNonce, proxies[s.Proxy].name, p, s.Start, s.Away)
 }
 
@@ -41,15 +51,35 @@ func (s *scenario) key() string {
 	if s.Delta {
 		p = "delta"
 	}
+	if s.EDSFirst {
+		p += ":eds-first"
+	}
+	if s.Coalesce {
+		p += ":coalesced-ack"
+	}
 	return fmt.Sprintf("%s:%s", s.Kind, p)
+}
+
+// scenProxies is the number of leading proxies that take part in scenario enumeration: those without a
+// pod (a pod-backed proxy has one connection per control plane; its own client is cut instead, see below).
+func scenProxies() int {
+	n := 0
+	for _, p := range proxies {
+		if p.pod {
+			break
+		}
+		n++
+	}
+	return n
 }
 
 func enumerateScenarios(nb int, salt int) []*scenario {
 	var out []*scenario
 	k := salt
+	np := scenProxies()
 	next := func() (int, bool) {
 		k++
-		return k % len(proxies), (k/len(proxies))%2 == 1
+		return k % np, (k/np)%2 == 1
 	}
 	mid := nb / 2
 	for n := 1; n <= 8; n++ {
@@ -66,244 +96,381 @@ func enumerateScenarios(nb int, salt int) []*scenario {
 		p, d := next()
 		out = append(out, &scenario{Kind: "boundary", Proxy: p, Delta: d, Start: j, Away: 1 + (j+k)%3, Orderly: j%2 == 0, StaleNonce: j%3 == 0})
 	}
+	// EDS-first reconnects (SotW only), appended so that the scenarios above keep their proxies and protocols: a
+	// boundary cut at every batch, and cuts inside the initial sync once EDS names are retained
+	for j := 0; j < nb; j++ {
+		p, _ := next()
+		out = append(out, &scenario{Kind: "boundary", Proxy: p, Delta: false, EDSFirst: true, Coalesce: j%2 == 0, Start: j, Away: 1 + (j+k)%3, Orderly: j%2 == 1, StaleNonce: j%3 == 1})
+	}
+	for n := 3; n <= 8; n++ {
+		p, _ := next()
+		out = append(out, &scenario{Kind: "init-cut", N: n, Ack: n%2 == 0, Proxy: p, Delta: false, EDSFirst: true, Coalesce: n%2 == 1, Start: (mid + n + 2) % nb, Away: 1 + (n+k)%2, StaleNonce: n%2 == 1})
+	}
+	// pod-backed proxies: the long-lived client itself is cut at a batch boundary and reconnects later
+	for pi, p := range proxies {
+		if !p.pod {
+			continue
+		}
+		for rep := 0; rep < 2 && nb > 0; rep++ {
+			j := (salt + 3*pi + rep*(nb/2+1)) % nb
+			out = append(out, &scenario{Kind: "self-boundary", Proxy: pi, Delta: p.mode == 2, Start: j, Away: 1 + (j+pi+rep)%3, Orderly: (j+rep)%2 == 0, StaleNonce: j%2 == 0, self: true})
+		}
+	}
 	return out
 }
 
+func edsFirstSuffix(s *scenario) string {
+	switch {
+	case s.EDSFirst && s.Coalesce:
+		return "-edsfirst-coalesced"
+	case s.EDSFirst:
+		return "-edsfirst"
+	}
+	return ""
+}
+
 func runC05(c *vh.Ctx) {
-	n := c.N(18, 200)
-	for i := 0; i < n; i++ {
-		if !c.Mine(i) {
+	if reproSelected() != "" {
+		return
+	}
+	for _, st := range strata {
+		if !st.enabled() {
 			continue
 		}
-		c.Case(fmt.Sprintf("reconnect/%d", i), func() {
-			r := c.Rng("reconnect", i)
-			hist := genHistory(r, 10+r.Intn(c.N(12, 30)))
-			debounce := time.Duration(1+r.Intn(4)) * time.Millisecond
-			w := newWorld(c, debounce)
-			w.hist = hist
-			cur := w.a
-			defer func() {
-				if cur != w.a {
-					cur.f.Done()
+		n := st.nRecon[tierIdx(c)]
+		for i := 0; i < n; i++ {
+			if !c.Mine(i) {
+				continue
+			}
+			c.Case(fmt.Sprintf("%s/%d", st.reconCase, i), func() {
+				defer st.use()()
+				if st.id == "z" {
+					zreconnectCase(c, st, i)
+				} else {
+					reconnectCase(c, st, i)
 				}
-				w.close()
-			}()
+			})
+		}
+	}
+	runWarmReconnects(c)
+}
+
+func reconnectCase(c *vh.Ctx, st *stratum, i int) {
+	var hist [][]op
+	var w *world
+	var r *rand.Rand
+	var debounce time.Duration
+	switch st.id {
+	case "":
+		r = c.Rng("reconnect", i)
+		hist = genHistory(r, 10+r.Intn(c.N(12, 30)))
+		debounce = time.Duration(1+r.Intn(4)) * time.Millisecond
+		w = newWorld(c, debounce)
+	case "k":
+		r = c.Rng("kreconnect", i)
+		kinit, h, _ := genKHistory(r, 24+r.Intn(c.N(24, 50)))
+		hist = h
+		debounce = time.Duration(1+r.Intn(4)) * time.Millisecond
+		w = newWorldK(c, debounce, "k", kinit)
+	}
+	w.hist = hist
+	cur := w.a
+	defer func() {
+		if cur != w.a {
+			cur.f.Done()
+		}
+		w.close()
+	}()
+	if !quiesce(cur) {
+		c.Inconclusive("initial sync did not quiesce")
+		return
+	}
+	key05 := w.pfx("c05")
+	scens := enumerateScenarios(len(hist), i)
+	restartAt := -1
+	if i%2 == 1 && len(hist) > 2 {
+		restartAt = 1 + r.Intn(len(hist)-1)
+	}
+	// boundary clients live from the start
+	for _, s := range scens {
+		if s.Kind == "boundary" {
+			s.cl = newClient(proxies[s.Proxy], s.Delta, "/"+s.Kind+fmt.Sprint(s.Start)+edsFirstSuffix(s))
+			s.cl.EDSFirst, s.cl.CoalesceEDSAck = s.EDSFirst, s.Coalesce
+			s.cl.Connect(cur.srv.Discovery, envoyclient.Fault{}, false)
+		}
+		if s.self {
+			s.cl = w.primary(s.Proxy)
+		}
+	}
+	if !quiesce(cur) {
+		c.Inconclusive("scenario clients did not quiesce")
+		return
+	}
+	held := func(cl *envoyclient.Client) int {
+		n := 0
+		for _, m := range cl.Snapshot() {
+			n += len(m)
+		}
+		return n
+	}
+	// a long-lived client that is away because a self-boundary scenario cut it
+	selfAway := func(cl *envoyclient.Client) bool {
+		for _, s := range scens {
+			if s.self && s.away && s.cl == cl {
+				return true
+			}
+		}
+		return false
+	}
+	for bi := 0; bi <= len(hist); bi++ {
+		// 1. scheduled scenario starts
+		var started []*scenario
+		for _, s := range scens {
+			if s.Start != bi || bi == len(hist) {
+				continue
+			}
+			switch s.Kind {
+			case "init-cut":
+				s.cl = newClient(proxies[s.Proxy], s.Delta, fmt.Sprintf("/%s%d-%v", s.Kind, s.N, s.Ack)+edsFirstSuffix(s))
+				s.cl.EDSFirst, s.cl.CoalesceEDSAck = s.EDSFirst, s.Coalesce
+				s.cl.Connect(cur.srv.Discovery, envoyclient.Fault{CutAfterResponses: s.N, AckBeforeCut: s.Ack}, false)
+				started = append(started, s)
+			case "send-fail":
+				s.cl = newClient(proxies[s.Proxy], s.Delta, fmt.Sprintf("/%s%d", s.Kind, s.N))
+				s.cl.Connect(cur.srv.Discovery, envoyclient.Fault{FailSendAt: s.N}, false)
+				started = append(started, s)
+			case "boundary":
+				s.heldAtCut = held(s.cl)
+				s.cl.Disconnect(s.Orderly)
+				s.away, s.awayTill = true, bi+s.Away
+				c.Count("cuts_at_batch_boundary", 1)
+			case "self-boundary":
+				if selfAway(s.cl) {
+					s.cl = nil // still away from the previous cut of the same client: this scenario does not take place
+					continue
+				}
+				s.heldAtCut = held(s.cl)
+				s.cl.Disconnect(s.Orderly)
+				s.away, s.awayTill = true, bi+s.Away
+				c.Count("cuts_of_long_lived_client_at_batch_boundary", 1)
+			}
+		}
+		if len(started) > 0 {
 			if !quiesce(cur) {
-				c.Inconclusive("initial sync did not quiesce")
+				c.Inconclusive("fault injection did not quiesce")
 				return
 			}
-			scens := enumerateScenarios(len(hist), i)
-			restartAt := -1
-			if i%2 == 1 && len(hist) > 2 {
-				restartAt = 1 + r.Intn(len(hist)-1)
-			}
-			// boundary clients live from the start
-			for _, s := range scens {
-				if s.Kind == "boundary" {
-					s.cl = newClient(proxies[s.Proxy], s.Delta, "/"+s.Kind+fmt.Sprint(s.Start))
-					s.cl.Connect(cur.srv.Discovery, envoyclient.Fault{}, false)
-				}
-			}
-			if !quiesce(cur) {
-				c.Inconclusive("scenario clients did not quiesce")
-				return
-			}
-			held := func(cl *envoyclient.Client) int {
-				n := 0
-				for _, m := range cl.Snapshot() {
-					n += len(m)
-				}
-				return n
-			}
-			for bi := 0; bi <= len(hist); bi++ {
-				// 1. scheduled scenario starts
-				var started []*scenario
-				for _, s := range scens {
-					if s.Start != bi || bi == len(hist) {
-						continue
-					}
-					switch s.Kind {
-					case "init-cut":
-						s.cl = newClient(proxies[s.Proxy], s.Delta, fmt.Sprintf("/%s%d-%v", s.Kind, s.N, s.Ack))
-						s.cl.Connect(cur.srv.Discovery, envoyclient.Fault{CutAfterResponses: s.N, AckBeforeCut: s.Ack}, false)
-						started = append(started, s)
-					case "send-fail":
-						s.cl = newClient(proxies[s.Proxy], s.Delta, fmt.Sprintf("/%s%d", s.Kind, s.N))
-						s.cl.Connect(cur.srv.Discovery, envoyclient.Fault{FailSendAt: s.N}, false)
-						started = append(started, s)
-					case "boundary":
-						s.heldAtCut = held(s.cl)
-						s.cl.Disconnect(s.Orderly)
-						s.away, s.awayTill = true, bi+s.Away
-						c.Count("cuts_at_batch_boundary", 1)
-					}
-				}
-				if len(started) > 0 {
-					if !quiesce(cur) {
-						c.Inconclusive("fault injection did not quiesce")
-						return
-					}
-					for _, s := range started {
-						done, _, pan := s.cl.StreamErr()
-						if pan != "" {
-							c.Violation("c05:stream-handler-panic:"+vh.TopIstioFrame(pan), fmt.Sprintf("server stream handler panicked in scenario %s: %s", s, firstLine(pan)), nil)
-							return
-						}
-						if !done && s.cl.Connected() {
-							// the fault point has not been reached yet (fewer responses than n so far): it stays armed
-							s.armed = true
-							continue
-						}
-						s.heldAtCut = held(s.cl)
-						s.cl.Disconnect(false)
-						s.away, s.awayTill = true, bi+s.Away
-						c.Count("cuts_"+s.Kind, 1)
-					}
-				}
-				// 1b. armed faults that fired during the previous batch
-				for _, s := range scens {
-					if !s.armed || s.cl == nil || s.away {
-						continue
-					}
-					done, _, pan := s.cl.StreamErr()
-					if pan != "" {
-						c.Violation("c05:stream-handler-panic:"+vh.TopIstioFrame(pan), fmt.Sprintf("server stream handler panicked in scenario %s: %s", s, firstLine(pan)), nil)
-						return
-					}
-					if done || !s.cl.Connected() {
-						s.armed = false
-						s.heldAtCut = held(s.cl)
-						s.cl.Disconnect(false)
-						s.away, s.awayTill = true, bi+s.Away
-						c.Count("cuts_"+s.Kind+"_mid_push", 1)
-					}
-				}
-				// 2. control-plane restart: everybody reconnects to a server built from the current state
-				if bi == restartAt {
-					next := newServer(cur.snapshot(), debounce)
-					all := append(append([]*envoyclient.Client{}, w.sotw...), w.delta...)
-					for _, s := range scens {
-						if s.cl != nil && !s.away {
-							all = append(all, s.cl)
-						}
-					}
-					for k, cl := range all {
-						cl.Disconnect(k%2 == 0)
-					}
-					for _, s := range scens {
-						s.armed = false
-					}
-					old := cur
-					cur = next
-					for k, cl := range all {
-						cl.Connect(cur.srv.Discovery, envoyclient.Fault{}, k%3 == 0)
-					}
-					if old != w.a {
-						old.f.Done()
-					}
-					c.Count("control_plane_restarts", 1)
-					if !quiesce(cur) {
-						c.Inconclusive("restart did not quiesce")
-						return
-					}
-				}
-				// 3. reconnects that are due (before the next batch, or at the end)
-				for _, s := range scens {
-					if s.away && (s.awayTill <= bi || bi == len(hist)) {
-						s.away = false
-						s.cl.Connect(cur.srv.Discovery, envoyclient.Fault{}, s.StaleNonce)
-						c.Count("reconnects", 1)
-					}
-				}
-				if bi == len(hist) {
-					break
-				}
-				// 4. the batch
-				w.applyBatch(cur, hist[bi])
-				w.applied = bi + 1
-				for _, s := range scens {
-					if s.away {
-						s.missed += len(hist[bi])
-					}
-				}
-				if !quiesce(cur) {
-					c.Inconclusive(fmt.Sprintf("batch %d did not quiesce", bi))
+			for _, s := range started {
+				done, _, pan := s.cl.StreamErr()
+				if pan != "" {
+					c.Violation(key05+":stream-handler-panic:"+vh.TopIstioFrame(pan), fmt.Sprintf("server stream handler panicked in scenario %s: %s", s, firstLine(pan)), nil)
 					return
 				}
-				c.Count("batches", 1)
+				if !done && s.cl.Connected() {
+					// the fault point has not been reached yet (fewer responses than n so far): it stays armed
+					s.armed = true
+					continue
+				}
+				s.heldAtCut = held(s.cl)
+				s.cl.Disconnect(false)
+				s.away, s.awayTill = true, bi+s.Away
+				c.Count("cuts_"+s.Kind, 1)
 			}
+		}
+		// 1b. armed faults that fired during the previous batch
+		for _, s := range scens {
+			if !s.armed || s.cl == nil || s.away {
+				continue
+			}
+			done, _, pan := s.cl.StreamErr()
+			if pan != "" {
+				c.Violation(key05+":stream-handler-panic:"+vh.TopIstioFrame(pan), fmt.Sprintf("server stream handler panicked in scenario %s: %s", s, firstLine(pan)), nil)
+				return
+			}
+			if done || !s.cl.Connected() {
+				s.armed = false
+				s.heldAtCut = held(s.cl)
+				s.cl.Disconnect(false)
+				s.away, s.awayTill = true, bi+s.Away
+				c.Count("cuts_"+s.Kind+"_mid_push", 1)
+			}
+		}
+		// 2. control-plane restart: everybody reconnects to a server built from the current state
+		if bi == restartAt {
+			next := newServerK(cur.snapshot(), w.kube.list(), debounce)
+			var all []*envoyclient.Client
+			base, _ := w.clients()
+			for _, cl := range base {
+				if !selfAway(cl) {
+					all = append(all, cl)
+				}
+			}
+			for _, s := range scens {
+				if s.cl != nil && !s.away && !s.self {
+					all = append(all, s.cl)
+				}
+			}
+			for k, cl := range all {
+				cl.Disconnect(k%2 == 0)
+			}
+			for _, s := range scens {
+				s.armed = false
+			}
+			old := cur
+			cur = next
+			for k, cl := range all {
+				cl.Connect(cur.srv.Discovery, envoyclient.Fault{}, k%3 == 0)
+			}
+			if old != w.a {
+				old.f.Done()
+			}
+			c.Count("control_plane_restarts", 1)
 			if !quiesce(cur) {
-				c.Inconclusive("final reconnects did not quiesce")
+				c.Inconclusive("restart did not quiesce")
 				return
 			}
-			// oracle: every scenario client (and the base clients, which went through the restart) equals fresh
-			var cls []*envoyclient.Client
-			var pidx []int
-			for _, s := range scens {
-				if s.cl == nil {
-					continue
-				}
-				if done, err, pan := s.cl.StreamErr(); done {
-					if pan != "" {
-						c.Violation("c05:stream-handler-panic:"+vh.TopIstioFrame(pan), fmt.Sprintf("server stream handler panicked after reconnect in scenario %s: %s", s, firstLine(pan)), nil)
-					} else {
-						c.Violation("c05:reconnected-stream-ended:"+s.key(), fmt.Sprintf("scenario %s: the stream opened by the reconnect ended: %v", s, err), map[string]any{"history": histText(hist, len(hist))})
-					}
-					continue
-				}
-				if s.armed {
-					c.Count("fault_point_never_reached", 1)
-				}
-				cls = append(cls, s.cl)
-				pidx = append(pidx, s.Proxy)
-				c.SetAdd("scenario_kinds", s.key())
-				c.Count("scenarios", 1)
-				if s.missed > 0 && s.heldAtCut > 0 {
-					c.Nontrivial(vh.Hash(histHash(hist), s.String()))
-					c.Count("scenarios_with_missed_changes", 1)
-				}
-				resp, opened := s.cl.ResponsesOnStream()
-				for t := range opened {
-					c.Count("reopened_types", 1)
-					if resp[t] > 0 {
-						c.Count("reopened_types_answered", 1)
-					}
-				}
+		}
+		// 3. reconnects that are due (before the next batch, or at the end)
+		for _, s := range scens {
+			if s.away && (s.awayTill <= bi || bi == len(hist)) {
+				s.away = false
+				s.cl.Connect(cur.srv.Discovery, envoyclient.Fault{}, s.StaleNonce)
+				c.Count("reconnects", 1)
 			}
-			for pi := range proxies {
-				cls = append(cls, w.sotw[pi], w.delta[pi])
-				pidx = append(pidx, pi, pi)
+		}
+		if bi == len(hist) {
+			break
+		}
+		// 4. the batch
+		w.applyBatch(cur, hist[bi])
+		w.applied = bi + 1
+		for _, s := range scens {
+			if s.away {
+				s.missed += len(hist[bi])
 			}
-			info := fmt.Sprintf("reconnect/%d end of history, restartAt=%d", i, restartAt)
-			// label the violation with the scenario of the failing client
-			nameToScen := map[string]string{}
-			for _, s := range scens {
-				if s.cl != nil {
-					nameToScen[s.cl.Name] = s.String()
-				}
+		}
+		if !quiesce(cur) {
+			c.Inconclusive(fmt.Sprintf("batch %d did not quiesce", bi))
+			return
+		}
+		c.Count("batches", 1)
+		for _, o := range hist[bi] {
+			if o.K != nil {
+				c.Count("kube_ops:"+o.Verb+"_"+o.K.Kind, 1)
+				c.Count(st.id+"_kube_ops", 1)
+			} else if st.id != "" {
+				c.Count(st.id+"_config_ops", 1)
 			}
-			w.scenInfo = nameToScen
-			ncmp, ok := w.checkAgainstFresh(cur, cls, pidx, "c05", info)
-			if !ok {
-				return
+		}
+	}
+	if !quiesce(cur) {
+		c.Inconclusive("final reconnects did not quiesce")
+		return
+	}
+	// a fault whose point was never reached must not fire during the oracle's own forced pushes
+	for _, s := range scens {
+		if s.armed && s.cl != nil {
+			s.cl.Disarm()
+		}
+	}
+	// oracle: every scenario client (and the base clients, which went through the restart) equals fresh
+	var cls []*envoyclient.Client
+	var pidx []int
+	nScen := 0
+	for _, s := range scens {
+		if s.cl == nil {
+			continue
+		}
+		if done, err, pan := s.cl.StreamErr(); done {
+			if pan != "" {
+				c.Violation(key05+":stream-handler-panic:"+vh.TopIstioFrame(pan), fmt.Sprintf("server stream handler panicked after reconnect in scenario %s: %s", s, firstLine(pan)), nil)
+			} else {
+				c.Violation(key05+":reconnected-stream-ended:"+s.key(), fmt.Sprintf("scenario %s: the stream opened by the reconnect ended: %v", s, err), map[string]any{"history": histText(hist, len(hist))})
 			}
-			c.Count("resources_compared", ncmp)
-			for _, s := range scens {
-				if s.cl != nil {
-					for _, v := range s.cl.ViolationsCopy() {
-						c.Violation("c05:delta-protocol-sanity", s.cl.Name+": "+v, nil)
-					}
-					s.cl.Disconnect(false)
-				}
+			continue
+		}
+		if s.armed {
+			c.Count("fault_point_never_reached", 1)
+		}
+		if !s.self {
+			cls = append(cls, s.cl)
+			pidx = append(pidx, s.Proxy)
+		}
+		c.SetAdd("scenario_kinds", s.key())
+		c.Count("scenarios", 1)
+		nScen++
+		if st.id != "" {
+			c.Count(st.id+"_scenarios", 1)
+		}
+		if s.missed > 0 && s.heldAtCut > 0 {
+			c.Nontrivial(st.id + vh.Hash(histHash(hist), s.String()))
+			c.Count("scenarios_with_missed_changes", 1)
+			if st.id != "" {
+				c.Count(st.id+"_nontrivial", 1)
 			}
-			c.Count("histories", 1)
-			if i < 2 {
-				var ss []string
-				for _, s := range scens[:6] {
-					ss = append(ss, s.String())
-				}
-				c.Sample(map[string]any{"history": histText(hist, len(hist)), "scenarios": len(scens), "first_scenarios": ss, "restartAt": restartAt})
+		}
+		resp, opened := s.cl.ResponsesOnStream()
+		for t := range opened {
+			c.Count("reopened_types", 1)
+			if resp[t] > 0 {
+				c.Count("reopened_types_answered", 1)
 			}
-		})
+		}
+	}
+	// evaluations count scenarios (the unit distinct_nontrivial counts); the case itself was counted once
+	if nScen > 1 {
+		c.AddEvaluations(nScen - 1)
+	}
+	for pi := range proxies {
+		for _, cl := range []*envoyclient.Client{w.sotw[pi], w.delta[pi]} {
+			if cl != nil {
+				cls = append(cls, cl)
+				pidx = append(pidx, pi)
+			}
+		}
+	}
+	// nothing may still be warming: on the reconnected streams of the scenario clients, and for the long-lived clients
+	for _, s := range scens {
+		if s.cl != nil && !s.self {
+			w.warmingCheck("c05", "reconnected-stream:"+s.key(), []*envoyclient.Client{s.cl}, func(*envoyclient.Client) string { return s.String() })
+		}
+	}
+	base, _ := w.clients()
+	w.warmingCheck("c05", "long-lived", base, nil)
+	info := fmt.Sprintf("%s/%d end of history, restartAt=%d", st.reconCase, i, restartAt)
+	// label the violation with the scenario of the failing client
+	nameToScen := map[string]string{}
+	for _, s := range scens {
+		if s.cl != nil {
+			nameToScen[s.cl.Name] = s.String()
+		}
+	}
+	w.scenInfo = nameToScen
+	ncmp, ok := w.checkAgainstFresh(cur, cls, pidx, key05, info)
+	if !ok {
+		return
+	}
+	c.Count("resources_compared", ncmp)
+	for _, s := range scens {
+		if s.cl != nil {
+			for _, v := range s.cl.ViolationsCopy() {
+				c.Violation(key05+":delta-protocol-sanity", s.cl.Name+": "+v, nil)
+			}
+			if !s.self {
+				s.cl.Disconnect(false)
+			}
+		}
+	}
+	c.Count("histories", 1)
+	if st.id != "" {
+		c.Count(st.id+"_histories", 1)
+		cur.pushEvidence(c, st.id)
+	}
+	if i < 2 {
+		var ss []string
+		for _, s := range scens[:6] {
+			ss = append(ss, s.String())
+		}
+		c.Sample(map[string]any{"stratum": st.sw, "history": histText(hist, len(hist)), "scenarios": len(scens), "first_scenarios": ss, "restartAt": restartAt})
 	}
 }
